@@ -103,10 +103,16 @@ fn opt_hex(s: &str) -> Option<String> {
 
 /// Format a report (not inside panic!) with recording on; returns
 /// (panicked?, output, recording).
-fn format_report(report: &ErrorReport, plain: bool) -> (bool, String, hooks::Recording) {
+/// plain: 0 = no guard, 1 = one guard alive, 2 = an outer guard alive while an inner one has
+/// been created and dropped, 3 = a guard created and dropped before formatting.
+fn format_report(report: &ErrorReport, plain: u8) -> (bool, String, hooks::Recording) {
     hooks::start_recording();
     let out = catch_unwind(AssertUnwindSafe(|| {
-        let _g = if plain { Some(PlainOutputGuard::new()) } else { None };
+        let _outer = if plain == 1 || plain == 2 { Some(PlainOutputGuard::new()) } else { None };
+        if plain == 2 || plain == 3 {
+            let inner = PlainOutputGuard::new();
+            drop(inner);
+        }
         format!("{}", report)
     }));
     let rec = hooks::take_recording().unwrap_or_default();
@@ -154,7 +160,7 @@ fn answer(line: &str) -> String {
             if res.is_err() {
                 return "panic".into();
             }
-            let (_, _, rec) = format_report(&report, true);
+            let (_, _, rec) = format_report(&report, 1);
             if rec.entries.is_empty() {
                 "[]".into()
             } else {
@@ -188,7 +194,7 @@ fn answer(line: &str) -> String {
         "display" => {
             let m = unhex_str(t[1]);
             let f = unhex_str(t[2]);
-            let plain = t[3] == "1";
+            let plain: u8 = t[3].parse().unwrap();
             let n: usize = t[5].parse().unwrap();
             let mut report = ErrorReport::new(&m, &f);
             for k in 0..n {
@@ -222,8 +228,70 @@ fn answer(line: &str) -> String {
             }));
             match r { Ok(_) => "ok".into(), Err(_) => "panic".into() }
         }
+        // conc <hex dir> <threads> <rounds> <shared:0|1> : threads format failing reports at a barrier;
+        // every message must equal the one the same failure produces alone.
+        "conc" => {
+            let dir = unhex_str(t[1]);
+            let n: usize = t[2].parse().unwrap();
+            let rounds: usize = t[3].parse().unwrap();
+            let shared = t[4] == "1";
+            conc(&dir, n, rounds, shared)
+        }
         _ => "bad-op".into(),
     }
+}
+
+fn make_report(dir: &str, file: &str, k: usize) -> ErrorReport {
+    let mut report = ErrorReport::new(dir, file);
+    let n1 = node(NodeKind::Comparison { op: ComparisonOp::Greater, value: leak_str(format!("{}", k)) }, (2, 4, 2, 9));
+    let n2 = node(NodeKind::Simple { value: leak_str("\"x\"".to_string()) }, (3, 4, 3, 7));
+    report.push(n1, format!("{}", k), None);
+    report.push(n2, format!("\"thread {}\"", k), None);
+    report
+}
+
+fn conc(dir: &str, n: usize, rounds: usize, shared: bool) -> String {
+    use std::sync::{Arc, Barrier};
+    let mut bad = Vec::new();
+    for r in 0..rounds {
+        // fresh files each round: the first access in the process is cold
+        let files: Vec<String> = (0..n).map(|k| if shared { format!("r{}_shared.rs", r) } else { format!("r{}_t{}.rs", r, k) }).collect();
+        for (k, f) in files.iter().enumerate() {
+            let body = if shared { format!("// shared é\n    >= {}\n    \"lit\"\n", r) } else { format!("// file of thread {} é\n    >= {}\n    \"l{}\"\n", k, k, k) };
+            std::fs::write(std::path::Path::new(dir).join(f), body).unwrap();
+        }
+        let barrier = Arc::new(Barrier::new(n));
+        let mut handles = Vec::new();
+        for k in 0..n {
+            let dir = dir.to_string();
+            let f = files[k].clone();
+            let b = barrier.clone();
+            handles.push(std::thread::spawn(move || {
+                let report = make_report(&dir, &f, k);
+                b.wait();
+                let _g = PlainOutputGuard::new();
+                let cold = format!("{}", report);
+                let warm = format!("{}", report);
+                (cold, warm)
+            }));
+        }
+        let outs: Vec<(String, String)> = handles.into_iter().map(|h| h.join().unwrap()).collect();
+        // reference: the same failure formatted alone, afterwards, over an identical fresh file
+        for k in 0..n {
+            let rf = format!("ref_{}_{}.rs", r, k);
+            std::fs::copy(std::path::Path::new(dir).join(&files[k]), std::path::Path::new(dir).join(&rf)).unwrap();
+            let report = make_report(dir, &rf, k);
+            let _g = PlainOutputGuard::new();
+            let alone = format!("{}", report).replace(&rf, &files[k]);
+            if outs[k].0 != alone || outs[k].1 != alone {
+                bad.push(format!("round={} thread={}", r, k));
+            }
+            if !alone.contains(&format!("{}", k)) || !alone.contains("assert_struct! failed") {
+                bad.push(format!("reference-broken round={} thread={}", r, k));
+            }
+        }
+    }
+    if bad.is_empty() { "ok".into() } else { format!("mismatch {}", bad.join(",")) }
 }
 
 fn main() {
